@@ -532,6 +532,32 @@ pub fn run(c: &Ctx) {
         c.judge("stdfs-twin-prog", &prog, check_stdfs_twin_prog(&prog));
     });
     crate::sandbox::cleanup();
+    // set_cwd on the real filesystem, the three ways, in a child process (the cwd is process-global): also when
+    // the new cwd is reached through a link (what the call returns is the backend's answer, not a second opinion)
+    {
+        let dir = format!("{}/c13-cwd-{}", crate::sandbox::root().to_str().unwrap(), std::process::id());
+        let e: std::collections::BTreeMap<String, String> = [("HOME".to_string(), "/h".to_string())].into_iter().collect();
+        match crate::child::probe(&e, &[json!({"op":"set_cwd_ways","dir":dir})]) {
+            Ok(resp) => match resp[0].get("rows").and_then(|r| r.as_array()) {
+                Some(rows) => {
+                    for row in rows {
+                        c.eval(1);
+                        c.nontrivial(fp(&("set_cwd-ways", row["spelled"].as_str())));
+                        c.class("stdfs-twin:set_cwd-in-child");
+                        let w = row["ways"].as_array().cloned().unwrap_or_default();
+                        let res = if w.len() == 3 && w[0] == w[1] && w[0] == w[2] {
+                            Ok(())
+                        } else {
+                            Err(Failure::new("set_cwd|result-differs-between-the-three-ways|stdfs", format!("set_cwd({}) from {}: Stdfs::set_cwd {} / method on the Stdfs value {} / Vfs::Stdfs {}", row["spelled"], dir, w.first().unwrap_or(&Value::Null), w.get(1).unwrap_or(&Value::Null), w.get(2).unwrap_or(&Value::Null))))
+                        };
+                        c.judge("set_cwd-ways", &json!([row["spelled"]]), res);
+                    }
+                },
+                None => c.inconclusive(&format!("set_cwd child gave no rows: {}", resp[0])),
+            },
+            Err(x) => c.inconclusive(&format!("envprobe child failed: {}", x)),
+        }
+    }
     // every short history, the four ways (a wrapper that answers from what it remembers of earlier calls)
     crate::hsweep::history_sweep(c, 3, 1303, c.tier.pick(4, 1), "four-ways", check_ops);
     // (b) random histories
